@@ -1,5 +1,85 @@
-"""Engine hooks (not contracts): dispatch through the opcode table, opaque embedder calls."""
+"""Engine hooks (not contracts): dispatch through the opcode table, opaque embedder calls, unknown
+heap objects loaded from symbolic dicts."""
+import z3
+from pyvc import sym
+from pyvc.sym import HObj, HDict, ZList, SV, Opaque, VAL, I, zint, fresh
+from pyvc.interp import Unsupported, AstFunc
+from pyvc.apply import apply_to_params
+from pyvc.state import Mk
+
+OPCK = 'functions.<OPC>'
+PLUGINK = 'functions.<PLUGIN>'
 
 
 def configure(ip, reg, contract):
-    pass
+    g = ip.ctx.ghost
+    g['dispatch_hook'] = dispatch
+    g['opaque_hook'] = opaque_call
+    g['unknown_factory'] = unknown
+
+
+def _extends_opc(reg, key):
+    c = reg.get(key)
+    seen = set()
+    while c is not None and c.key not in seen:
+        if c.key == OPCK:
+            return True
+        seen.add(c.key)
+        c = reg.get(c.extends) if c.extends else None
+    return False
+
+
+def dispatch(ip, en, args, kwargs):
+    """op(tape, stack, cache) with op a symbolic entry of the opcode table: every entry of the live
+    table must be under a contract that extends OPC; the call is then a use of OPC."""
+    reg = ip.reg
+    for fn in en.table.values():
+        key = ip.src.key_of(fn)
+        if key is None or not _extends_opc(reg, key):
+            raise Unsupported(f'opcode table entry {getattr(fn, "__name__", fn)!r} has no contract extending OPC')
+    ip.ctx.ghost.setdefault('dispatch_entries', set()).update(ip.src.key_of(fn) for fn in en.table.values())
+    if len(args) != 3 or kwargs:
+        raise Unsupported('dispatch call shape')
+    return apply_to_params(ip, reg.get(OPCK), {'tape': args[0], 'stack': args[1], 'cache': args[2]})
+
+
+def opaque_call(ip, fn, args, kwargs, method):
+    """call of an embedder object.  A plugin receives (tape, stack, cache): its effect is the assumed
+    contract <PLUGIN>.  Anything else (contract methods on plain data) is an unknown pure function."""
+    reg = ip.reg
+    if method is None and len(args) == 3 and isinstance(args[0], HObj) and isinstance(args[1], HObj) \
+            and isinstance(args[2], HDict):
+        ip.ctx.ghost.setdefault('assumptions', set()).add('A-PLUGIN: plugins preserve the VM invariants')
+        return apply_to_params(ip, reg.get(PLUGINK), {'tape': args[0], 'stack': args[1], 'cache': args[2]})
+    for a in list(args) + list(kwargs.values()):
+        if isinstance(a, (HObj, HDict)):
+            raise Unsupported('embedder call receiving a VM object')
+    ip.ctx.ghost.setdefault('assumptions', set()).add('A-EMBED: contract methods do not touch VM state')
+    k = ip.ctx.count('opaque:' + (method or 'call'))
+    e = z3.Const(f'embed_{method or "call"}#{k}', VAL)
+    ip.ctx.define(z3.Not(VAL.is_absent(e)))
+    ip.ctx.define(z3.Not(VAL.is_vref(e)))
+    return SV(e)
+
+
+def unknown(ip, rid, hint):
+    """heap object behind a reference found in a symbolic dict"""
+    g = ip.ctx.ghost
+    memo = g.setdefault('unknown_objs', [])
+    for r, o in memo:
+        if r.eq(zint(rid)):
+            return o
+    if hint == 'list':
+        from pyvc.vocab_sym import ref_len, ref_arr
+        z = ZList('val', ref_arr(zint(rid)), ref_len(zint(rid)), kind='list')
+        ip.ctx.define(zint(z.ln) >= 0)
+        memo.append((zint(rid), z))
+        return z
+    if hint == 'Tape':
+        mk = g.get('tape_factory')
+        if mk is None:
+            raise Unsupported('definition tape loaded without an aliasing specification')
+        o = mk(ip, rid)
+        memo.append((zint(rid), o))
+        return o
+    return Opaque('ref', rid)
